@@ -607,7 +607,11 @@ func (s *Sched) prepareOp(t *Thread, op *Op) {
 					// whether a partner has ARRIVED at an unbuffered channel is not a visible
 					// operation of this model; a non-blocking poll of it cannot be explored
 					// soundly, so the engine refuses instead of guessing (never a VIOLATION)
-					s.abort("unsupported: select with default over an unbuffered channel")
+					// (the unreduced explorer branches over both answers whenever the partner is
+					// pending at its operation: it may or may not have arrived yet)
+					if Reduced {
+						s.abort("unsupported: select with default over an unbuffered channel")
+					}
 				}
 			}
 		}
